@@ -5,8 +5,10 @@ import (
 
 	schema "github.com/jsightapi/jsight-schema-core"
 	"github.com/jsightapi/jsight-schema-core/bytes"
+	"github.com/jsightapi/jsight-schema-core/errs"
 	"github.com/jsightapi/jsight-schema-core/fs"
 	"github.com/jsightapi/jsight-schema-core/internal/sync"
+	"github.com/jsightapi/jsight-schema-core/kit"
 	"github.com/jsightapi/jsight-schema-core/lexeme"
 )
 
@@ -116,6 +118,7 @@ func (e *Enum) doCompile() (err error) {
 
 	collectLiteral := false
 	inAnnotation := false
+	arrayFound := false
 	for {
 		lex, err := scan.Next()
 		if stdErrors.Is(err, errEOS) {
@@ -127,6 +130,9 @@ func (e *Enum) doCompile() (err error) {
 
 		// Collect enum values.
 		switch lex.Type() {
+		case lexeme.ArrayBegin:
+			arrayFound = true
+
 		case lexeme.LiteralEnd:
 			collectLiteral = true
 			if err := e.handleLiteralEnd(lex); err != nil {
@@ -145,6 +151,10 @@ func (e *Enum) doCompile() (err error) {
 			e.handleEndOfComment(lex, collectLiteral)
 			inAnnotation = false
 		}
+	}
+	if !arrayFound {
+		// An empty (or blank) text is not a list of values.
+		return kit.NewJSchemaError(e.file, errs.ErrEnumArrayExpected.F())
 	}
 	return nil
 }
